@@ -425,6 +425,23 @@ pub fn gen_value(r: &mut Rng) -> (Locale, &'static str, Value) {
     }
 }
 
+/// One history step on the library value, followed by the value checks. `None` when the call panicked.
+fn apply_checked(l: &mut Locale, op: &Op, check: fn(&str, &Locale) -> Vec<Fail>) -> Option<Vec<Fail>> {
+    // a copy made with Clone::clone_from / clone is the same value: its serialisation is the original's
+    let before_clone = if matches!(op, Op::CloneOnto(_)) { Some(l.to_string()) } else { None };
+    if guard(|| model::apply_lib(l, op)).is_err() {
+        return None;
+    }
+    let mut fails = check("value after history", l);
+    if let Some(b) = before_clone {
+        let after = l.to_string();
+        if after != b {
+            fails.insert(0, fail("copy-serialises-differently", format!("a value that prints {:?} was copied onto a populated value with clone_from / clone; the copy prints {:?}", b, after)));
+        }
+    }
+    Some(fails)
+}
+
 fn run_values(ctx: &mut Ctx, tag: u64, n_hist: u64, n_other: u64, check: fn(&str, &Locale) -> Vec<Fail>) {
     let mut r = Rng::new(mix(&[ctx.seed, ctx.shard as u64, tag]));
     // (a) every intermediate value of random histories
@@ -440,13 +457,13 @@ fn run_values(ctx: &mut Ctx, tag: u64, n_hist: u64, n_other: u64, check: fn(&str
         ctx.count("histories");
         for (i, op) in ops.iter().enumerate() {
             mon::begin_case(op.kind().as_bytes());
-            if guard(|| model::apply_lib(&mut l, op)).is_err() {
-                break;
-            }
+            let Some(fails) = apply_checked(&mut l, op, check) else { break };
             ctx.evals += 1;
             ctx.count("value:after-history-step");
+            if matches!(op, Op::CloneOnto(_)) {
+                ctx.count("value:copied onto a populated value (clone_from)");
+            }
             ctx.sig(SigH::new(tag).b(l.to_string().as_bytes()).fin());
-            let fails = check("value after history", &l);
             if let Some(f) = fails.first() {
                 ctx.viol_total += 1;
                 ctx.count_dyn(&format!("violation:{}", f.clause));
@@ -455,11 +472,13 @@ fn run_values(ctx: &mut Ctx, tag: u64, n_hist: u64, n_other: u64, check: fn(&str
                     let bad = |c: &[Op]| -> bool {
                         let Ok(mut l) = start.parse::<Locale>() else { return false };
                         for op in c {
-                            if guard(|| model::apply_lib(&mut l, op)).is_err() {
-                                return false;
-                            }
-                            if check("value after history", &l).iter().any(|g| g.clause == clause) {
-                                return true;
+                            match apply_checked(&mut l, op, check) {
+                                None => return false,
+                                Some(fs) => {
+                                    if fs.iter().any(|g| g.clause == clause) {
+                                        return true;
+                                    }
+                                }
                             }
                         }
                         false
@@ -565,10 +584,10 @@ fn replay_values(v: &Value, check: fn(&str, &Locale) -> Vec<Fail>) -> Vec<Fail> 
         };
         let mut out = vec![];
         for op in &ops {
-            if guard(|| model::apply_lib(&mut l, op)).is_err() {
-                break;
+            match apply_checked(&mut l, op, check) {
+                None => break,
+                Some(fs) => out = fs,
             }
-            out = check("value after history", &l);
             if !out.is_empty() {
                 return out;
             }
